@@ -171,7 +171,7 @@ type c01stream struct {
 }
 
 type c01op struct {
-	k       string // ustart upatch ucommit create refresh drain tick expire delete genmeta
+	k       string // ustart upatch ucommit ucommitraced create refresh drain tick expire delete genmeta
 	cluster bool
 	name    int
 	uid     int
@@ -219,6 +219,7 @@ type c01env struct {
 	rejects   int // writes that returned an error
 	drains    int // drain iterations that found an item
 	seen      bool
+	tags      map[string]bool
 	closeFn   func()
 }
 
@@ -252,7 +253,7 @@ func c01newEnv(ctx *verifhlib.Ctx, cfg c01cfg, lenchk bool, blobs [][]byte) *c01
 	e := &c01env{cfg: cfg, lenchk: lenchk, cas: cas, mc: mc, be: be, bm: bm, uploadDir: up,
 		mg:   metainfogen.Fixture(cas, cfg.genpl),
 		ring: hashring.New(hashring.Config{MaxReplica: 1}, hostlist.Fixture(c01host), healthcheck.IdentityFilter{}, tally.NoopScope),
-		pctx: core.PeerContextFixture(), tab: c01newTab(blobs), uids: map[int]string{}, nextUID: 1}
+		pctx: core.PeerContextFixture(), tab: c01newTab(blobs), uids: map[int]string{}, nextUID: 1, tags: map[string]bool{}}
 	for i := 1; i <= len(blobs); i++ {
 		e.names = append(e.names, i)
 	}
@@ -521,6 +522,8 @@ func (e *c01env) exec(o *c01op) {
 		out := c01out(rec.Code)
 		e.countWrite(out)
 		e.record(fmt.Sprintf("UCommit %s %d %d", verifhlib.B(o.cluster), o.name, o.uid), "UCommit-"+out, out)
+	case "ucommitraced":
+		e.commitRaced(o)
 	case "create":
 		calls := 0
 		err := e.cas.WriteCacheFile(e.tab.names[o.name], func(w store.FileReadWriter) error {
@@ -574,6 +577,92 @@ func (e *c01env) exec(o *c01op) {
 	default:
 		panic("C01 driver: unknown op " + o.k)
 	}
+}
+
+// a request body that reports when the handler starts reading it and then waits for the driver
+type c01gate struct {
+	data  []byte
+	first chan struct{}
+	feed  chan struct{}
+	began bool
+}
+
+func (g *c01gate) Read(p []byte) (int, error) {
+	if !g.began {
+		g.began = true
+		close(g.first)
+		<-g.feed
+	}
+	if len(g.data) == 0 {
+		return 0, io.EOF
+	}
+	n := copy(p, g.data)
+	g.data = g.data[n:]
+	return n, nil
+}
+
+// a PATCH of the upload passes its checks, opens the upload file and waits for its body; the
+// upload is committed; the body arrives (known finding C01-late-patch)
+func (e *c01env) commitRaced(o *c01op) {
+	nm := e.tab.names[o.name]
+	raceable := o.name != 0 && o.start < o.stop && len(o.body) > 0
+	if raceable {
+		if _, err := e.cas.GetCacheFileStat(nm); !os.IsNotExist(err) {
+			raceable = false
+		}
+	}
+	if raceable {
+		if _, err := e.cas.GetUploadFileStat(e.uidStr(o.uid)); err != nil {
+			raceable = false
+		}
+	}
+	if !raceable { // the PATCH would return before touching the file: a plain commit
+		o.k = "ucommit"
+		e.exec(o)
+		return
+	}
+	if r, err := e.cas.GetUploadFileReader(e.uidStr(o.uid)); err == nil {
+		b, _ := io.ReadAll(r)
+		r.Close()
+		e.tab.cid(b)
+		if o.start <= len(b) { // the bytes the late write leaves behind
+			nb := append([]byte(nil), b...)
+			w := o.body
+			if len(w) > o.stop-o.start {
+				w = w[:o.stop-o.start]
+			}
+			for len(nb) < o.start+len(w) {
+				nb = append(nb, 0)
+			}
+			copy(nb[o.start:], w)
+			e.tab.cid(nb)
+		}
+	}
+	h, _ := e.server()
+	gate := &c01gate{data: append([]byte(nil), o.body...), first: make(chan struct{}), feed: make(chan struct{})}
+	done := make(chan int, 1)
+	go func() {
+		req := httptest.NewRequest("PATCH", e.uploadURL(o.cluster, o.name, e.uidStr(o.uid)), gate)
+		req.Header.Set("Content-Range", fmt.Sprintf("%d-%d", o.start, o.stop))
+		rec := httptest.NewRecorder()
+		h.ServeHTTP(rec, req)
+		done <- rec.Code
+	}()
+	select {
+	case <-gate.first:
+	case <-done: // answered without reading the body: not the interleaving the op describes
+		e.incon = true
+		close(gate.feed)
+		return
+	}
+	rec := c01do(h, "PUT", e.uploadURL(o.cluster, o.name, e.uidStr(o.uid)), nil, nil)
+	close(gate.feed)
+	<-done
+	out := c01out(rec.Code)
+	e.countWrite(out)
+	e.tags["late-patch"] = true
+	e.record(fmt.Sprintf("UCommitRaced %s %d %d %d %d %d", verifhlib.B(o.cluster), o.name, o.uid, o.start, o.stop, e.tab.cid(o.body)),
+		"UCommitRaced-"+out, out)
 }
 
 func c01concat(w c01stream) []byte {
@@ -880,6 +969,10 @@ func (g *c01gen) next() c01op {
 		if r.Chance(80) {
 			g.open = append(g.open[:i], g.open[i+1:]...)
 		}
+		if r.Chance(4) { // a PATCH of the same upload straddles the commit (known finding C01-late-patch)
+			o.k, o.start, o.stop, o.body = "ucommitraced", r.Intn(3), 0, r.Bytes(1+r.Intn(3))
+			o.stop = o.start + len(o.body)
+		}
 		return o
 	case p < 67:
 		o := c01op{k: "create", name: name, w1: g.genStream(name, 65)}
@@ -1031,6 +1124,15 @@ func c01seeds() []c01seed {
 		{"seed-nested", memOn, [][]byte{A, B}, []c01op{
 			{k: "refresh", name: 1, stat: 4, w1: c01one(A...), w2: c01one(A...), pl: 4,
 				nested: []c01op{rf(1, 4, c01one(A...), c01one(A...), 2), drain}, nested2: []c01op{{k: "delete", name: 1}}}, drain}},
+		// known finding C01-late-patch: a PATCH still delivering its body when its upload is committed
+		{"seed-late-patch", memOff, [][]byte{A, B}, []c01op{
+			{k: "ustart", name: 1}, {k: "upatch", name: 1, uid: 1, start: 0, stop: 4, body: A},
+			{k: "ucommitraced", name: 1, uid: 1, start: 0, stop: 1, body: []byte{99}}}},
+		{"seed-late-patch-cluster", memOn, [][]byte{A, B}, []c01op{
+			{k: "ustart", cluster: true, name: 2}, {k: "upatch", cluster: true, name: 2, uid: 1, start: 0, stop: 2, body: B},
+			{k: "ucommitraced", cluster: true, name: 2, uid: 1, start: 1, stop: 4, body: []byte{7, 8, 9}},
+			{k: "ustart", name: 1}, {k: "upatch", name: 1, uid: 2, start: 0, stop: 4, body: Ac},
+			{k: "ucommitraced", name: 1, uid: 2, start: 3, stop: 4, body: []byte{13}}}},
 		{"seed-invalid-name", memOn, [][]byte{A, B}, []c01op{
 			rf(0, 4, c01one(A...), c01one(A...), 4), {k: "create", name: 0, w1: c01one(A...)}, {k: "ustart", name: 0},
 			{k: "delete", name: 0}, {k: "genmeta", name: 0, pl: 4}}},
@@ -1060,8 +1162,13 @@ func c01probeLenchk(ctx *verifhlib.Ctx) bool {
 
 func (e *c01env) emit(ctx *verifhlib.Ctx, kind string) {
 	sample := map[string]interface{}{"mem": e.cfg.mem, "max_size": e.cfg.max, "skip": e.cfg.skip, "ops": e.ops}
+	var tags []string
+	for t := range e.tags {
+		tags = append(tags, t)
+	}
 	ctx.Emit(verifhlib.Case{Coq: e.coq(), NT: e.seen && e.oks >= 1 && (e.rejects >= 1 || e.drains >= 1), Kind: kind,
-		Key: fmt.Sprintf("%v|%s|%s", e.cfg, e.tab.coq(), strings.Join(e.ops, ";")), Hist: e.hist, Sample: sample, Incon: e.incon})
+		Key: fmt.Sprintf("%v|%s|%s", e.cfg, e.tab.coq(), strings.Join(e.ops, ";")), Hist: e.hist, Sample: sample, Incon: e.incon,
+		Tags: tags})
 }
 
 func c01driver(ctx *verifhlib.Ctx) {
